@@ -113,3 +113,33 @@ Lemma main_step_calls : forall raises acts h e l,
 Proof.
   intros raises acts h e l s. apply step_calls. apply (main_invariant raises acts h).
 Qed.
+
+(* ------------------------------------------------------------ round 9: a subscribe() call on a live session *)
+(* The model's Subscribe takes the ids as ONE list `cs` that feeds both the bookkeeping (union) and the
+   requests (update): the argument is materialised once (fixes/C12-subscribe-oneshot-iterable.patch). *)
+Lemma main_subscribe_asks_named : forall raises acts s cs rs s' o,
+    conn s = true -> sup s = true ->
+    step raises acts s (Subscribe cs rs) = (s', o) -> sup s' = true ->
+    (forall c, In c (put_ids true o) <-> In c cs)
+    /\ put_ids false o = []
+    /\ (forall l, calls_of l o = [])
+    /\ conn s' = true
+    /\ (forall c, In c (subs s') <-> In c (subs s) \/ In c (put_ids true o)).
+Proof.
+  intros raises acts s cs rs s' o HC HS Hstep Hs'.
+  pose proof (subs_subscribe raises acts s cs rs) as SU. rewrite Hstep in SU. cbn [fst] in SU.
+  cbn [step] in Hstep. rewrite HS, HC in Hstep. cbn [negb] in Hstep.
+  destruct (update true rs cs) as [o1 [stt|lost]] eqn:EU.
+  - inversion Hstep; subst; clear Hstep. cbn [conn].
+    pose proof (update_shape true rs cs) as SH. rewrite EU in SH. cbn [fst] in SH.
+    unfold update in EU. destruct (send_done _ _ _ _ _ _ EU) as [P1 _].
+    assert (Q : forall c, In c (put_ids true (o1 ++ [ORet RetDict])) <-> In c cs).
+    { intros c. rewrite put_ids_app. cbn [put_ids flat_map]. rewrite app_nil_r.
+      rewrite P1. apply groups_concat_In. }
+    split; [exact Q|]. split; [|split; [|split]].
+    + pose proof (puts_other true o1 SH) as Q2. cbn [negb] in Q2. rewrite put_ids_app, Q2. reflexivity.
+    + intros l. rewrite calls_of_app, (puts_calls true o1 l SH). reflexivity.
+    + reflexivity.
+    + intros c. rewrite (SU c). rewrite (Q c). tauto.
+  - inversion Hstep; subst. cbn in Hs'. discriminate.
+Qed.
